@@ -1,10 +1,16 @@
 #!/bin/sh
-# usage: tools/try_mutant.sh <patch.diff> <PROP> [<PROP>...] : apply to /repo, run the checks, always revert
+# usage: tools/try_mutant.sh <patch.diff> <PROP> [<PROP>...] : apply to /repo, run the checks, always revert.
+# The evidence files and generated model parts are those of the UNCHANGED tree again afterwards.
 patch="$1"; shift
 cd /repo || exit 2
 git diff --quiet || { echo "/repo is dirty"; exit 2; }
 git apply "$patch" || { echo "patch does not apply"; exit 2; }
+rm -rf /verif/.cache/evidence.keep && cp -r /verif/evidence /verif/.cache/evidence.keep
 for p in "$@"; do
   (cd /verif && ./check "$p" 2>&1 | grep -E "^(VIOLATION|PASS|KNOWN|FAIL)" | cut -c1-400)
 done
 git -C /repo checkout -- . ; git -C /repo status --short | head -3
+rm -rf /verif/evidence && mv /verif/.cache/evidence.keep /verif/evidence
+(cd /verif && python3 -c "
+import sys; sys.path.insert(0,'lib'); sys.path.insert(0,'props'); sys.path.insert(0,'translators')
+import vf; vf.regen_all()" >/dev/null 2>&1)
